@@ -206,7 +206,8 @@ def output_files(conf: dict[str, Any]) -> list[Path]:
         m = re.search(r"_(\d+)$", stem)
         base = stem[: m.start()] if m else stem
         cands = sorted(glob.glob(str(fn.parent / f"{base}_*{fn.suffix}")))
-        return [Path(c) for c in cands if re.fullmatch(re.escape(base) + r"_\d+", Path(c).stem)]
+        found = [Path(c) for c in cands if re.fullmatch(re.escape(base) + r"_\d+", Path(c).stem)]
+        return sorted(found, key=lambda q: int(q.stem.rsplit("_", 1)[1]))
     return [fn] if fn.exists() else []
 
 
